@@ -188,6 +188,13 @@ func ValidateDecryptionKeysSignatures(
 	if int32(len(extra.SignerIndices)) != keyperSet.Threshold {
 		return pubsub.ValidationReject, errors.Errorf("expected %d signers, got %d", keyperSet.Threshold, len(extra.SignerIndices))
 	}
+	if len(extra.Signature) != len(extra.SignerIndices) {
+		return pubsub.ValidationReject, errors.Errorf(
+			"expected one signature per signer, got %d signatures for %d signers",
+			len(extra.Signature),
+			len(extra.SignerIndices),
+		)
+	}
 	res, err := validateSignerIndices(extra, len(keyperSet.Keypers))
 	if res != pubsub.ValidationAccept {
 		return res, err
